@@ -47,7 +47,8 @@ CLAIMED.update({
                 text="The pending-pool section of Brc20Ref (park inside the nonce window, drain of consecutive live nonces at "
                      "consecutive indexes in the same call, expiry, one receipt per appended transaction, pool = waiting set) is "
                      "validated on real signed legacy transactions in TLC-generated arrival orders incl. gaps, replays, foreign "
-                     "chain ids, undecodable bytes and window edges."),
+                     "chain ids, undecodable bytes and window edges; a mainnet configuration crosses height 929 000, where the identity "
+                     "of a signed transaction changes from its signing hash to the hash of its bytes."),
 })
 
 CLAIMED.update({
@@ -114,8 +115,9 @@ CLAIMED.update({
     "C19": dict(cat="model_checking", sec="5/C19", note=HIST_NOTE, tech=HIST_TECH,
                 text="The Probe contract records NUMBER, TIMESTAMP, PREVRANDAO, CHAINID, BASEFEE, GASPRICE, COINBASE, CALLER, ORIGIN, "
                      "BLOCKHASH(n-1,-2,-3,-256,-257) and the answer of the current-txid helper; Brc20Ref.ProbeWrite is the oracle "
-                     "for inscription calls, signed and parked-then-drained transactions across reorgs/restarts, on regtest (Prague) "
-                     "and signet at low heights (Cancun: helper absent)."),
+                     "for inscription calls, signed and parked-then-drained transactions across reorgs/restarts, on regtest (Prague), "
+                     "signet at low heights (Cancun: helper absent) and in histories that start 6 blocks below an activation height and "
+                     "cross it (signet 275 000, mainnet 923 369 and 929 000; constant Base of the reference machine)."),
 })
 
 CLAIMED.update({
